@@ -110,6 +110,8 @@ def run_case(case):
         raise
     except Exception as e:  # noqa: BLE001
         kind, sig = classify_exception(e)
+        if kind == "harness":
+            raise
         res["days"] = node.steps_done if node is not None else 0
         if kind == "permitted":
             res["status"] = "rejected"
